@@ -21,7 +21,7 @@ Print Assumptions C12_failAt_is_log.
 (* hence the single "no match found" error of a failed parse is the specification's:
    sorted, duplicate-free expected list, EOF last (rparse / no_match_perr) *)
 Theorem C12_report_is_ref_report : forall c,
-  has_state (cT c) = true -> o_memoize (cO c) = false -> G_wf c -> stale_ok c -> t_leftrec (cT c) = false ->
+  state_ok c -> o_memoize (cO c) = false -> G_wf c -> stale_ok c -> t_leftrec (cT c) = false ->
   forall fuel, obs_equiv (parse c fuel) (rparse c fuel).
 Proof. exact parse_refines_rparse. Qed.
 Print Assumptions C12_report_is_ref_report.
